@@ -5,7 +5,7 @@
 # meta.json "caught_by" to report a VIOLATION (exit 1) within the quick budget.  /repo itself is never modified.
 cd /verif
 ids="$@"
-[ -z "$ids" ] && ids=$(ls seeded | grep -E '^(R2-)?C[0-9]+-m[0-9]+$')
+[ -z "$ids" ] && ids=$(ls seeded | grep -E '^(R[0-9]-)?C[0-9]+-m[0-9]+$')
 fail=0
 run_one() {
   id=$1
